@@ -249,6 +249,23 @@ def do_janssen(c):
     rho = gen.parameters["air_density"]; kap = gen.parameters["vonkarman_constant"]; elev = gen.parameters["elevation"]
     xs = arr(c["scan"])
     res = {"z": out(z), "points": []}
+    # the same question asked in other ways must get the same answer:
+    # (a) through the module-level wrapper roughness.janssen_roughness_length (friction velocity in, roughness out)
+    if typ in ("friction_velocity", "ustar"):
+        def _wrapper():
+            from ocean_science_utilities.wavephysics import roughness as RM
+            from ocean_science_utilities.wavephysics.balance.balance import SourceTermBalance
+            from ocean_science_utilities.wavephysics.balance.st4_wave_breaking import ST4WaveBreaking
+            return out(RM.janssen_roughness_length(U, spec, SourceTermBalance(gen, ST4WaveBreaking()), D).values)
+        res["wrapper_z"] = guarded(_wrapper)
+    # (b) with whole-number winds given as integers instead of floats
+    if typ == "u10":
+        Ur = np.round(U.values)
+        def _ints():
+            zi = gen.roughness(xarray.DataArray(Ur.astype("int64"), dims=("time",)), D, spec, wind_speed_input_type=typ).values
+            zf = gen.roughness(xarray.DataArray(Ur.astype("float64"), dims=("time",)), D, spec, wind_speed_input_type=typ).values
+            return {"int": out(zi), "float": out(zf)}
+        res["whole_winds"] = guarded(_ints)
 
     def balance_at(i, zz):
         sp = spec[i:i + 1] if False else _j["mk"](f, dirs, Es[i][None, :, :], times[:1], np.zeros(1), np.zeros(1), depth=depth[i:i + 1])
